@@ -240,6 +240,14 @@ func C09(r *report.Report, tier string) {
 		}
 		rec(nil, depth)
 	}
+	// named, deeper states (the breadth-first part reaches only depth 2/3): a directory whose first block is full
+	// (32 entries) next to a file, on full disks; a sparse file; a nearly full disk with a file that has 8 blocks
+	fullDir := []fsx.Op{{K: "MKDIR", H: "root", N: "d"}, {K: "CREATEMANY", H: "root/d", N: "e", Cnt: 30}, {K: "CREATE", H: "root", N: "a"}}
+	for _, d := range disks {
+		for _, extra := range [][]fsx.Op{{{K: "FILL"}}, {{K: "WRITE", H: "root/a", Off: 0, Cnt: 4096, Pat: 0x11, Stable: 2}, {K: "FILL"}}, {{K: "CREATE", H: "root/d", N: "x"}, {K: "FILL"}}, {}} {
+			jobs = append(jobs, c09Arg{Disk: d, Path: append(append([]fsx.Op{}, fullDir...), extra...), L: L})
+		}
+	}
 	failing := map[string]int{}
 	par.Map("c09", jobs, par.Options{Deadline: Deadline}, func(i int, res *par.Result) {
 		if res.Skipped {
